@@ -52,7 +52,12 @@ def theta_bracket(part, k, sampling_times, alpha, seed, B=1500):
     mu, sd = ds.mean(), ds.std()
     z = scipy.stats.norm.ppf(1 - alpha)
     theta = mu + z * sd
-    half = 6 * sd * np.sqrt((1 + z * z / 2) * (1.0 / sampling_times + 1.0 / B)) + 1e-12
+    # spread of the estimator mean + z * deviation over samples of `sampling_times` re-assignments, measured by resampling the pool (the
+    # permutation distribution on small lattices is discrete and skewed: a normal-theory formula was measurably too tight), 8 deviations wide
+    m = max(2, int(sampling_times))
+    sub = ds[rs.randint(0, B, size=(600, m))]
+    est = sub.mean(axis=1) + z * sub.std(axis=1)
+    half = 8 * float(est.std()) * np.sqrt(1.0 + m / B) + abs(float(est.mean()) - theta) + 1e-12
     return theta - half, theta + half
 
 
@@ -70,6 +75,10 @@ def run_nndvi(p, script, seed=0):
         def wrapped(*a, **kw):
             v = orig(*a, **kw)
             seen["theta"] = float(v)
+            try:      # the partition the update actually works with (which of several equidistant neighbours sklearn returns can differ from call to call)
+                seen["M"], seen["v1"], seen["v2"] = np.array(a[0]), np.array(a[1]), np.array(a[2])
+            except Exception:  # noqa
+                pass
             return v
         det._compute_drift_threshold = wrapped
     except Exception:  # noqa
@@ -103,7 +112,8 @@ def run_nndvi(p, script, seed=0):
             nn = NNSpacePartitioner(p["k_nn"])
             nn.build(ref_before, X)
             part = part_record(nn, scale)
-            seen.pop("theta", None)
+            for key in ("theta", "M", "v1", "v2"):
+                seen.pop(key, None)
             # observe the distances the update computes (optional): the first is the batch's own, the following sampling_times are
             # those of the random re-assignments the threshold is fitted to - however they were drawn
             dists = []
@@ -120,6 +130,10 @@ def run_nndvi(p, script, seed=0):
             finally:
                 if orig_dist is not None:
                     NNSpacePartitioner.compute_nnps_distance = orig_dist
+            if "M" in seen and seen["M"].shape == (len(part["D"]), len(part["D"])):
+                M = seen.pop("M")
+                part = dict(part, v1=[int(x) for x in seen.pop("v1")], v2=[int(x) for x in seen.pop("v2")],
+                            nb=[[int(j) + 1 for j in np.nonzero(M[i])[0]] for i in range(M.shape[0])])
             fit = "NA"
             nre = len(dists) - 1 if len(dists) > 1 else -1        # re-assignment distances observed (-1: none could be observed)
             if len(dists) == p["sampling_times"] + 1:
